@@ -333,3 +333,167 @@ register(Harness("c24_pseudo", "C24", make_pseudo, {"quick": dict(shards=12, bud
                  "wrapper form in {relative, reset, reset(relative)}; devices in {[a,b], [a], None}; device error at message index fail_at in [0,8)",
                  out_of_bound="real (non-pseudo) axes of a pseudo-positioner; more than two coupled axes", stubs=["duck-typed fake PseudoPositioner (RealPosition attribute, pseudo_positioners)"],
                  require_exhaustive=True))
+
+
+# ---- a device and one of its (non-pseudo) child components moved by the same plan; and the real rel_* plans
+class ChildComp(PosMotor):
+    def __init__(self, name, pos, parent):
+        super().__init__(name, pos)
+        self.parent = parent
+
+
+def make_component(P):
+    import bluesky.preprocessors as bpp
+    from bluesky.utils import Msg
+
+    def h(pp: Real, pc: Real, op: Real, oc: Real, order: int, form: int, subset: int, fail_at: int) -> str:
+        par = PosMotor("m", pp)
+        child = ChildComp("m_velocity", pc, par)
+        init = {par: pp, child: pc}
+        order = fork_int(order, 0, 2)  # child then parent / parent then child / child only
+        steps = [[(child, oc), (par, op)], [(par, op), (child, oc)], [(child, oc)]][order]
+        form = fork_int(form, 1, 2)  # reset / reset(relative)
+        subset = fork_int(subset, 0, 1)
+        sub = [None, [par, child]][subset]
+        only_shard(order * 4 + form * 2 + subset, P)
+        st = {"j": 0, "plan_end": None}
+
+        def plan():
+            try:
+                for d, off in steps:
+                    yield Msg("set", d, off, group="g")
+                yield Msg("wait", None, group="g")
+            finally:
+                st["plan_end"] = st["j"]
+
+        gen = bpp.reset_positions_wrapper(plan() if form == 1 else bpp.relative_set_wrapper(plan(), sub), sub)
+        fail = fork_int(fail_at, 0, 6)
+        if fail == 6:
+            fail = 10**6
+        sets = []
+        try:
+            m = gen.send(None)
+            while True:
+                j = st["j"]
+                st["j"] = j + 1
+                if j == fail:
+                    goal("failure-injected")
+                    m = gen.throw(genlab.Boom("device", j))
+                    continue
+                if m.command == "set":
+                    sets.append((m.obj, m.args[0], j))
+                    m.obj._pos = m.args[0]
+                m = gen.send(None)
+        except (StopIteration, genlab.Boom):
+            pass
+        who = ("", "reset_positions_wrapper", "reset(relative)")[form] + "[device+component]"
+        tags = []
+        pe = st["plan_end"] if st["plan_end"] is not None else 10**6
+        body = [x for x in sets if x[2] < pe]
+        tail = {d: v for d, v, j in sets if j >= pe}
+        if st["plan_end"] is not None and not (fail < 10**6 and fail >= pe):
+            for d in {d for d, _, _ in body}:
+                goal("moved")
+                if d not in tail:
+                    tags.append(f"{who}:moved-device-not-commanded-back")
+                elif tail[d] != init[d]:
+                    tags.append(f"{who}:reset-target-is-not-initial-position")
+        return ";".join(sorted(set(tags)))
+
+    return h
+
+
+def make_relplans(P):
+    """The real rel_* plans, natively: every in-scan target is the initial position plus the absolute plan's target, and the
+    motors are sent back to where they started, on success and when a message fails."""
+    import bluesky.plans as bp
+    from vlib.symx import fork_range, notrace
+    from harnesses.c25_scans import Det, Motor, consume
+
+    PLANS = ["rel_scan", "rel_list_scan", "rel_log_scan", "rel_grid_scan", "rel_adaptive_scan"]
+
+    def run(name, init, fail):
+        m1, m2, det = Motor("m1"), Motor("m2"), Det()
+        pos = {"m1": init[0], "m2": init[1]}
+        absolute = init == (0.0, 0.0)
+        if name == "rel_scan":
+            gen = bp.rel_scan([det], m1, -1.0, 1.0, 3)
+        elif name == "rel_list_scan":
+            gen = bp.rel_list_scan([det], m1, [0.5, 1.5], m2, [-1.0, 2.0])
+        elif name == "rel_log_scan":
+            gen = bp.rel_log_scan([det], m1, 0.0, 1.0, 3)
+        elif name == "rel_grid_scan":
+            gen = bp.rel_grid_scan([det], m1, 0.0, 1.0, 2, m2, -1.0, 0.0, 2)
+        else:
+            gen = bp.rel_adaptive_scan([det], "det", m1, 0.0, 1.0, 0.2, 0.5, 1.0, False)
+        # wrap: throw at message index `fail`
+        info = {"closed_before_failure": False}
+
+        def failing(g):
+            j = 0
+            r = None
+            try:
+                m = g.send(None)
+                while True:
+                    if m.command == "close_run" and j < fail:
+                        info["closed_before_failure"] = True  # the failure (if any) hits the clean-up that follows the run
+                    if j == fail:
+                        j += 1
+                        m = g.throw(genlab.Boom("device", fail))
+                        continue
+                    j += 1
+                    r = yield m
+                    m = g.send(r)
+            except StopIteration:
+                return
+        try:
+            runs, problems = consume(failing(gen), pos)
+        except genlab.Boom:
+            runs = None
+        return pos, runs, info["closed_before_failure"]
+
+    def h(plan: int, i1: int, i2: int, fail: int) -> str:
+        pi = fork_int(plan, 0, len(PLANS) - 1)
+        a, b = [0.0, 3.0, -2.5][fork_int(i1, 0, 2)], [0.0, 7.0][fork_int(i2, 0, 1)]
+        f = fork_range(fail, 0, 40)  # 40: nothing fails
+        only_shard(pi * 3 + f, P)
+        with notrace():
+            name = PLANS[pi]
+            pos0, runs0, _ = run(name, (0.0, 0.0), 10**6)
+            pos, runs, in_cleanup = run(name, (a, b), f if f < 40 else 10**6)
+            tags = []
+            if f < 40 and in_cleanup:
+                return ""  # the reset (or the unstaging before it) itself was made to fail: nothing to demand
+            if pos["m1"] != a or pos["m2"] != b:
+                tags.append(f"{name}:motors-not-returned-to-their-initial-positions")
+            if f == 40 and runs and runs0:
+                goal("completed")
+                p0, p1 = runs0[0]["points"], runs[0]["points"]
+                if len(p0) != len(p1):
+                    tags.append(f"{name}:number-of-points-depends-on-the-initial-position")
+                else:
+                    for x, y in zip(p0, p1):
+                        if abs(y["m1"] - (x["m1"] + a)) > 1e-9 or abs(y["m2"] - (x["m2"] + b)) > 1e-9:
+                            tags.append(f"{name}:point-is-not-initial-position-plus-offset")
+            if f < 40:
+                goal("failure-injected")
+            return ";".join(sorted(set(tags)))
+
+    return h
+
+
+def _fns_rel():
+    import bluesky.plans as bp
+
+    return [bp.rel_scan, bp.rel_list_scan, bp.rel_log_scan, bp.rel_grid_scan, bp.rel_adaptive_scan]
+
+
+register(Harness("c24_component", "C24", make_component, {"quick": dict(shards=12, budget_s=200, per_path_s=20)},
+                 goals=["moved", "failure-injected"], functions=_fns,
+                 symbolic="a device and one of its non-pseudo child components (component.parent is the device), both with symbolic real positions and offsets; order child/parent, parent/child, child only; "
+                 "reset_positions_wrapper alone or around relative_set_wrapper; devices None or listed; failing message index",
+                 out_of_bound="deeper component trees", float_model="real", require_exhaustive=True))
+register(Harness("c24_relplans", "C24", make_relplans, {"quick": dict(shards=15, budget_s=300, per_path_s=30)},
+                 goals=["completed", "failure-injected"], functions=_fns_rel, mode="schedule",
+                 symbolic="plan in {rel_scan, rel_list_scan, rel_log_scan, rel_grid_scan, rel_adaptive_scan} with fixed arguments; initial positions from {0, 3, -2.5} x {0, 7}; the index of a failing message in [0, 40) or none",
+                 out_of_bound="other arguments of those plans (the wrappers are covered symbolically by c24_relative); rel_spiral plans", stubs="a message consumer stands in for the RunEngine", require_exhaustive=True))
